@@ -3,7 +3,7 @@
 # Objects are rebuilt only when the sources (or anything they include) changed (-MMD).
 REPO  ?= /repo
 V     := $(abspath $(dir $(lastword $(MAKEFILE_LIST))))
-B     := $(V)/build
+B     ?= $(V)/build
 CFG   := $(B)/cfg
 FLAVOURS ?= plain asan tsan
 GUARD := BXDECAY0_VERIF
